@@ -536,10 +536,11 @@ struct Provider {
     Scripted& natural_dispersal() { return nat; }
     Scripted& anthropogenic_dispersal() { return ant; }
 };
-static void mix_line(std::ostream& out, bool enabled, int row, int col, long unum, Q p) {
-    MixLog log;
-    NaturalAnthropogenicDispersalKernel<StubKernel, StubKernel> k(
-        std::unique_ptr<StubKernel>(new StubKernel{0, &log}), std::unique_ptr<StubKernel>(new StubKernel{1, &log}), enabled, p.v());
+using StubMix = NaturalAnthropogenicDispersalKernel<StubKernel, StubKernel>;
+// One decision of an existing kernel object (the object is re-used along a case, so a decision that
+// depended on earlier source cells would show).
+static void mix_line(std::ostream& out, StubMix& k, MixLog& log, bool enabled, int row, int col, long unum, Q p) {
+    log = MixLog();
     Provider prov;
     prov.ant.script = {uval((uint64_t)unum, UB)};
     int r, c;
@@ -556,14 +557,33 @@ static void mix_case(::verif::Case& c, Q p) {
     long one = 1L << UB;
     long pn = p.num * (one / p.den);
     std::vector<long> us = {0, 1, one / 2, one - 1, pn - 1, pn, pn + 1, pn / 2, (pn + one) / 2};
-    for (int enabled = 0; enabled <= 1; enabled++)
+    for (int enabled = 0; enabled <= 1; enabled++) {
+        MixLog log;
+        StubMix k(std::unique_ptr<StubKernel>(new StubKernel{0, &log}), std::unique_ptr<StubKernel>(new StubKernel{1, &log}), enabled == 1, p.v());
         for (int parity = 0; parity <= 1; parity++)
             for (long u : us) {
                 if (u < 0 || u >= one) continue;
                 int row = c.rng.in(-3, 40), col = c.rng.in(-3, 40);
                 if ((((row + col) % 2) + 2) % 2 != parity) col++;
-                mix_line(c.out, enabled == 1, row, col, u, p);
+                mix_line(c.out, k, log, enabled == 1, row, col, u, p);
             }
+        // source cells in the order the disperser loop visits them (row-major sweep of a small grid,
+        // several dispersers per cell), then the same cells again and in reverse
+        int rows = c.rng.in(1, 4), cols = c.rng.in(1, 4);
+        std::vector<std::pair<int, int>> order;
+        for (int a = 0; a < rows; a++) for (int b = 0; b < cols; b++) if (!c.rng.coin(25)) order.push_back({a, b});
+        size_t n0 = order.size();
+        for (size_t x = 0; x < n0; x++) order.push_back(order[x]);
+        for (size_t x = n0; x-- > 0;) order.push_back(order[x]);
+        for (auto& rc : order) {
+            int reps = c.rng.in(1, 2);
+            for (int t = 0; t < reps; t++) {
+                long u = c.rng.coin(50) ? one - 1 : (c.rng.coin(50) ? 0 : (long)c.rng.in(0, (1 << UB) - 1));
+                mix_line(c.out, k, log, enabled == 1, rc.first, rc.second, u, p);
+            }
+        }
+        stats.add("mix_sweeps");
+    }
     c.nontrivial = true;
 }
 
